@@ -94,10 +94,14 @@ class PersistenceLandscaper(BaseEstimator, TransformerMixin):
         """
         # TODO: remove infinities
         _dgm = X[self.hom_deg]
-        if self.start is None:
+        # grid bounds learned by an earlier fit are recomputed from the new
+        # data; bounds given by the user are kept
+        if self.start is None or getattr(self, "_start_is_fitted", False):
             self.start = min(_dgm, key=itemgetter(0))[0]
-        if self.stop is None:
+            self._start_is_fitted = True
+        if self.stop is None or getattr(self, "_stop_is_fitted", False):
             self.stop = max(_dgm, key=itemgetter(1))[1]
+            self._stop_is_fitted = True
         return self
 
     def transform(self, X: np.ndarray, y=None):
